@@ -6,7 +6,7 @@ HERE = os.path.dirname(os.path.abspath(__file__))
 
 SYMX_NOTE = ("Trusted base: go/ssa construction (x/tools v0.29.0), the symx interpreter's SSA semantics "
              "(cross-checked every run by replaying solver models of explored paths against the native build), "
-             "the engine-side models of assembly byte kernels / fmt / sync, z3 4.8.12. "
+             "the engine-side models of assembly byte kernels / fmt / sync, the solvers (z3 5.1.0 incremental; z3 4.8.12, z3 5.1.0 and cvc5 1.0 as stand-alone portfolio). "
              "Bounded claim only: nothing outside the stated bound is covered.")
 
 CLAIMED = {
